@@ -207,6 +207,22 @@ def run(chk):
                         chk.run("C05.R3", SITE[eq_type] + "->observations_loss_apply", cfg, go,
                                 construct=f"observations[{eq_type}" + (",observed eq_params" if op else "") + "]")
 
+    # ---------------- the weights are those of the public `loss_weights` field at evaluation time (nothing derived from them
+    # at construction survives their replacement)
+    from ..lossenv import replaced_weights_twin
+    for eq_type, term, rule, key in (('statio_PDE', 'norm', 'C05.R1', 'norm_loss'), ('nonstatio_PDE', 'norm', 'C05.R1', 'norm_loss'),
+                                     ('ODE', 'ic', 'C05.R2', 'initial_condition'), ('nonstatio_PDE', 'ic', 'C05.R2', 'initial_condition'),
+                                     ('ODE', 'obs', 'C05.R3', 'observations'), ('statio_PDE', 'obs', 'C05.R3', 'observations'),
+                                     ('nonstatio_PDE', 'obs', 'C05.R3', 'observations')):
+        cfg = {"loss": eq_type, "net": "PINN", "term": term, "loss_weights": "replaced after construction"}
+
+        def go(eq_type=eq_type, term=term, key=key):
+            if term == 'norm':      # the normalised solution is a scalar density
+                return replaced_weights_twin(lambda: SingleLoss(E, eq_type, 'PINN', d=2, m_u=1, terms=(term,)), key)
+            return replaced_weights_twin(lambda: SingleLoss(E, eq_type, 'PINN', d=2, m_u=2, terms=(term,), wkind='vector',
+                                                            wkind_terms=(key,)), key)
+        chk.run(rule, SITE[eq_type], cfg, go, construct=f"{key} (weights replaced after construction)")
+
     # ---------------- R4 the solution slice that the normalisation and observation terms select is the one the caller specified
     chk.rule("C05.R4", "the solution components entering the normalisation / observation terms are those given to the network "
                        "factory: None = all outputs, an integer k (0 included) = component k only, a slice = itself", floor=6)
